@@ -466,9 +466,11 @@ theorem resetFinish_shape (e : Encoder) (wf : Bool) (ct : Nat) (w h : Int) :
       e1.numAddsRemaining = (if ct ≠ colorTypeYCbCr420
         then (((w + 7) / 8).toNat % 4294967296) * (((h + 7) / 8).toNat % 4294967296) % 4294967296
         else (((w + 15) / 16).toNat % 4294967296) * (((h + 15) / 16).toNat % 4294967296) % 4294967296) ∧
-      e1.hasReturnedError = false ∧ e1.colorType = ct := by
+      e1.hasReturnedError = false ∧ e1.colorType = ct ∧
+      e1.bitsN = 0 ∧ e1.bitsV = 0 ∧ e1.prevDC0 = 0 ∧ e1.prevDC1 = 0 ∧ e1.prevDC2 = 0 ∧
+      e1.quants0 = e.quants0 ∧ e1.quants1 = e.quants1 := by
   unfold resetFinish
-  exact ⟨_, _, rfl, rfl, rfl, rfl⟩
+  exact ⟨_, _, rfl, rfl, rfl, rfl, rfl, rfl, rfl, rfl, rfl, rfl, rfl⟩
 
 /-- the state invariant of every reachable Encoder: once a colour type is set, `Inv` holds -/
 def WF (e : Encoder) : Prop := (e.colorType = 1 ∨ e.colorType = 3 ∨ e.colorType = 6) → Inv e
